@@ -158,7 +158,13 @@ fn sweep_cases(seed: u64, tier: &str, bins: &Binaries, scratch: Option<&str>) ->
                     if *ch == "args" && (crlf > 0 || !final_nl) {
                         continue;
                     }
+                    if name == "huge-valid" && (crlf != 0 || !final_nl) {
+                        continue;
+                    }
                     for cfg in [&Cfg::default(), &busy, &bare] {
+                        if name == "huge-valid" && cfg != &busy {
+                            continue;
+                        }
                         // very long lines are expensive for the library (super-linear): default settings only
                         if lines.iter().any(|l| l.len() > 400) && (cfg != &Cfg::default() || crlf == 2) {
                             continue;
@@ -175,6 +181,9 @@ fn sweep_cases(seed: u64, tier: &str, bins: &Binaries, scratch: Option<&str>) ->
         // library from_file on the same content
         for crlf in 0..2u64 {
             for final_nl in [true, false] {
+                if name == "huge-valid" && (crlf != 0 || !final_nl) {
+                    continue;
+                }
                 if let Some(content) = content_for("file", lines, crlf, final_nl, &mut rng) {
                     let mut c = make_probe_case(&content, &Cfg::default(), &mut rng);
                     c.note = format!("sweep/a probe {} crlf={} final_nl={}", name, crlf, final_nl);
@@ -313,6 +322,54 @@ fn sweep_cases(seed: u64, tier: &str, bins: &Binaries, scratch: Option<&str>) ->
             }
         }
     }
+    // (c2) a result larger than std's line buffer under sequences of short and interrupted writes
+    if let Some((_, lines)) = corpus.iter().find(|(n, _)| n == "long-output") {
+        let content = frame(lines, 0, true, &mut rng);
+        let seqs: Vec<Vec<(&str, i64)>> = vec![
+            vec![("chunk", 100), ("eintr", 0)],
+            vec![("chunk", 1500), ("eintr", 0)],
+            vec![("chunk", 1), ("chunk", 1), ("eintr", 0), ("chunk", 700), ("eintr", 0)],
+            vec![("eintr", 0), ("chunk", 700), ("eintr", 0), ("eintr", 0), ("chunk", 3)],
+            vec![("chunk", 1024), ("eintr", 0), ("chunk", 1024), ("eintr", 0)],
+            vec![("chunk", 1023), ("chunk", 1), ("eintr", 0)],
+        ];
+        // a short write first, then an interrupted write at every later call index (std's line buffer absorbs
+        // some calls and retries its own flushes, so which call the program itself issues varies)
+        let mut seqs = seqs;
+        for k in [1i64, 100, 700] {
+            for gap in 0..6usize {
+                let mut v: Vec<(&str, i64)> = vec![("chunk", k)];
+                for _ in 0..gap {
+                    v.push(("chunk", 0)); // a fault-free call
+                }
+                v.push(("eintr", 0));
+                seqs.push(v);
+            }
+        }
+        for ch in ["stdin", "file", "args"] {
+            for seq in &seqs {
+                if let Some(cont) = content_for(ch, lines, 0, true, &mut rng) {
+                    let body = if ch == "args" { cont } else { content.clone() };
+                    let mut c = make_case(ch, lines, &body, &Cfg::default(), &mut rng, true);
+                    for (k, a) in seq {
+                        c.events.push(("w1".into(), k.to_string(), *a));
+                    }
+                    c.note = format!("sweep/c2 long output, write faults {:?}", seq);
+                    out.push(Planned { case: c, stratum: "sweep-write-sequences" });
+                }
+            }
+            for n in [1i64, 7, 1000, 1024, 1025] {
+                if let Some(cont) = content_for(ch, lines, 0, true, &mut rng) {
+                    let body = if ch == "args" { cont } else { content.clone() };
+                    let mut c = make_case(ch, lines, &body, &Cfg::default(), &mut rng, true);
+                    c.dchunk.push(("w1".into(), n));
+                    c.events.push(("w1".into(), "eintr".into(), 0));
+                    c.note = format!("sweep/c2 long output, every write at most {} bytes", n);
+                    out.push(Planned { case: c, stratum: "sweep-write-sequences" });
+                }
+            }
+        }
+    }
     // (d) unusable input
     for (name, bytes) in unusable_streams() {
         for ch in ["stdin", "file", "file-via-stdin", "probe"] {
@@ -324,7 +381,7 @@ fn sweep_cases(seed: u64, tier: &str, bins: &Binaries, scratch: Option<&str>) ->
             c.note = format!("sweep/d unusable stream {}", name);
             out.push(Planned { case: c.clone(), stratum: "sweep-unusable" });
             // the same under chunked delivery
-            for n in [1i64, 3] {
+            for n in if bytes.len() > 200_000 { [8192i64, 65_536] } else { [1i64, 3] } {
                 let mut c2 = c.clone();
                 c2.dchunk.push(((if ch == "stdin" { "r0" } else { "rf" }).into(), n));
                 c2.note = format!("sweep/d unusable stream {} chunk {}", name, n);
